@@ -195,7 +195,7 @@ def generator_units(ctx, rule="R04.1g"):
     pinf.dimenv = {}
     pinf.problems = []
     u = pinf.unit(pj[0].value, {"cov_samples": U.INVLEN, "e1": U.ONE, "k_2": U.Unit(U.Lin.const(-2))}) if pj else U.TOP
-    ctx.check(u is not U.TOP and u.is_one() and not pinf.problems, "R16.3", S + "::summate_incompr", "projector e1 - k_d k_a / |k|^2 is dimensionless (|k|^2 : 1/L^2): %r %s" % (u, pinf.problems[:1]), "proj-unit")
+    ctx.check(u is not U.TOP and u.is_one() and not pinf.problems, "R04.6", S + "::summate_incompr", "projector e1 - k_d k_a / |k|^2 is dimensionless (|k|^2 : 1/L^2): %r %s" % (u, pinf.problems[:1]), "proj-unit")
 
 
 def offer_implementation(ctx, rule="R04.2"):
@@ -288,6 +288,11 @@ def composition(ctx, rule="R04.3"):
 
 
 def run(ctx):
+    from .C03 import tpl_weights
+    from .C14 import no_cached_derived
+
+    tpl_weights(ctx, rule="R04.4")  # the analytic TPL spectra receive the same (rescaled) lengths and weights as the correlations they are the transform of
+    no_cached_derived(ctx, rule="R04.5")  # the Hankel transform object follows dim / hankel_kw; nothing derived is cached
     homogeneity(ctx)
     generator_units(ctx)
     offer_implementation(ctx)
